@@ -357,11 +357,50 @@ def writeStructO (cfg : Cfg) (v : Dict) (w : String → WRes Val) (ov : Overlap)
   if !wf cfg v then failed s else
   finishLoopO cfg false ov (cfg.members.foldl (writeIterO cfg v w ov) { st := s })
 
-/-- histories in which accesses to the whole struct overlap with assignments of other threads -/
+/-! the generated member methods of the combined layout are several steps (updates under `updateLock`, reads of the cache
+outside it); `iv`: what other threads do before step 0, 1, … of the access.  The values handed on are the RETURNED ones, not
+what the cache holds when the next step begins. -/
+
+def ivAt (iv : List (List AOp)) (k : Nat) : List AOp := iv.getD k []
+
+/-- generated `read_<m>` (`read_<struct>()[m]`), steps `k` (the update by `read_<struct>`, or the read of the cached struct
+when the programmer wrote only `write_<struct>`) and `k + 1` (the update of the member) → (state, value returned) -/
+def readMemberAV (cfg : Cfg) (m : String) (r : RRes Dict) (iv : List (List AOp)) (k : Nat) (s : St) : St × Option Val :=
+  let s1 := readStructC cfg r (interrupt cfg (ivAt iv k) s)
+  let s2 := interrupt cfg (ivAt iv (k + 1)) s1
+  if !s1.ok then (memberError m s2, none) else
+  let ret := if cfg.hasRS then (match r with | .ok d => d.lookup m | .fail _ => none) else s1.struct.lookup m
+  match ret with
+  | none => (failed (memberError m s2), none)
+  | some x => (fine (announceMember cfg m x s2), some x)
+
+/-- programmer-written `read_<m>`, step `k` → (state, value returned) -/
+def readMemberBV (cfg : Cfg) (m : String) (rB : RRes Val) (iv : List (List AOp)) (k : Nat) (s : St) : St × Option Val :=
+  let s0 := interrupt cfg (ivAt iv k) s
+  match rB with
+  | .fail e => (failedExc (some e) (memberError m s0), none)
+  | .ok x => (fine (announceMember cfg m x s0), some x)
+
+/-- generated `write_<m>(v)`: step 0 the read of the cached struct, 1 the update by `write_<struct>`, 2… `read_<m>`, last the
+update of the member with the value `read_<m>` returned -/
+def writeMemberAO (cfg : Cfg) (m : String) (v : Val) (w : WRes Dict) (r : RRes Dict) (rB : RRes Val) (iv : List (List AOp))
+    (s : St) : St :=
+  let sa := interrupt cfg (ivAt iv 0) s
+  let s1 := writeStructC cfg (sa.struct.set m v) w (interrupt cfg (ivAt iv 1) sa)
+  if !s1.ok then s1 else
+  let sr := if cfg.hasR m then readMemberBV cfg m rB iv 2 s1 else readMemberAV cfg m r iv 2 s1
+  if !sr.1.ok then sr.1 else
+  match sr.2 with
+  | none => failed sr.1
+  | some x => fine (announceMember cfg m x (interrupt cfg (ivAt iv (if cfg.hasR m then 3 else 4)) sr.1))
+
+/-- histories in which accesses overlap with assignments of other threads -/
 inductive OOp
   | seq (op : Op)                                                                   -- an operation nothing gets into
   | readStructO (rA : RRes Dict) (rB : String → RRes Val) (ov : Overlap)
   | writeStructO (v : Dict) (wA : WRes Dict) (wB : String → WRes Val) (ov : Overlap)
+  | readMemberO (m : String) (rA : RRes Dict) (iv : List (List AOp))              -- generated member methods of the combined layout
+  | writeMemberO (m : String) (v : Val) (wA : WRes Dict) (rA : RRes Dict) (rB : RRes Val) (iv : List (List AOp))
 
 /-- in the combined layout `read_<struct>` / `write_<struct>` are one update: whatever other threads do comes before it -/
 def ostep (cfg : Cfg) (s : St) : OOp → St
@@ -370,10 +409,37 @@ def ostep (cfg : Cfg) (s : St) : OOp → St
     if cfg.combined then readStructC cfg rA (interrupt cfg (ov.atEnd ++ ov.afterRead) s) else readStructO cfg rB ov s
   | .writeStructO v wA wB ov =>
     if cfg.combined then writeStructC cfg v wA (interrupt cfg (ov.atEnd ++ ov.afterRead) s) else writeStructO cfg v wB ov s
+  | .readMemberO m rA iv =>
+    if cfg.members.contains m && cfg.combined && !cfg.hasR m then (readMemberAV cfg m rA iv 0 s).1 else failed s
+  | .writeMemberO m v wA rA rB iv =>
+    if cfg.members.contains m && cfg.combined && !cfg.hasW m then writeMemberAO cfg m v wA rA rB iv s else failed s
 
 def ostep1 (cfg : Cfg) (s : St) (op : OOp) : St := ostep cfg { s with evs := [], exc := none } op
 def orun (cfg : Cfg) (s : St) (ops : List OOp) : List St := Frappy.Scan.scan (ostep1 cfg) s ops
 def oexec (cfg : Cfg) (s : St) (ops : List OOp) : St := ops.foldl (ostep1 cfg) s
+
+/-! ### the guard counter as it was before `fix:` 8a147a3: one integer for all threads, `insideRW += 1` = load, store
+
+A thread inside an access runs `enter` (load, store +1) … `leave` (load, store −1); the interpreter may switch threads between
+the load and the store.  `CStep t a`: thread `t` performs `a`. -/
+inductive CAct
+  | load                      -- LOAD_ATTR insideRW
+  | storeInc                  -- STORE_ATTR insideRW (loaded value + 1)
+  | storeDec                  -- STORE_ATTR insideRW (loaded value − 1)
+  deriving Repr, DecidableEq, Inhabited
+
+structure CSt where
+  counter : Int := 0
+  loaded : Nat → Int := fun _ => 0    -- per thread: the value on its stack
+
+def cstep (s : CSt) (ta : Nat × CAct) : CSt :=
+  match ta.2 with
+  | .load => { s with loaded := fun t => if t = ta.1 then s.counter else s.loaded t }
+  | .storeInc => { s with counter := s.loaded ta.1 + 1 }
+  | .storeDec => { s with counter := s.loaded ta.1 - 1 }
+
+/-- the actions of one thread entering and leaving once -/
+def enterLeave : List CAct := [.load, .storeInc, .load, .storeDec]
 
 /-! ## FloatEnumParam (extparams.py:178-310)
 
